@@ -251,6 +251,10 @@ class C05(S.SchedCheck):
                 # completes (done True); then cut by its limit; then the same doers again to completion; then interrupted
                 seqs.append(("runs", 1.0, 0.0, None, [(m1, None, None, [], A), (m2, None, 3.0, [], B), (m1, None, 20.0, [], B), (m2, 0.0, None, [], K)]))
         seqs.append(("runs", 0.25, 1.0, 0.5, [("ado", None, None, [], B), ("ado", 2.5, None, [], A), ("do", None, 0.0, [], B)]))
+        # the same DoDoer objects again with another per-run `always` (through .opts): limited run with always=True, then a run without it
+        G0 = [("group", 410, 0.0, False, [("leaf", 411, "plain", "ok", [y(), y()]), ("leaf", 412, "doify", "ok", [y()])], [])]
+        G1 = [("group", 410, 0.0, True, G0[0][4], [])]
+        seqs.append(("runs", 1.0, 0.0, None, [("do", None, None, [], G0), ("do", None, 3.0, [], G1), ("do", None, 9.0, [], G0), ("ado", None, 3.0, [], G1), ("ado", None, 9.0, [], G0)]))
         # extend() on the idle Doist between runs: the stray doer must take no part in the next run
         seqs.append(("runs", 0.25, 0.0, None, [("do", None, None, [], A), ("do+x", None, None, [], A), ("ado+x", None, 100.0, [], B), ("do+x", None, None, [], [])]))
         # an explicitly empty doers argument after runs that had doers: the run ends after one cycle with done True
@@ -334,7 +338,14 @@ class C05(S.SchedCheck):
     def runs_valid(self, case):
         _, tock, start0, limit0, calls = case
         lim = limit0
+        seen = {}
+
+        def norm(sp):      # a doer object is re-used by id: its script / members must be the same in every call (only `always` may differ)
+            return sp if sp[0] == "leaf" else ("group", sp[1], sp[2], [norm(k) for k in sp[4]], [norm(k) for k in sp[5]])
         for mode, st, lm, pool, specs in calls:
+            for sp, _, _ in S.all_specs(("run", tock, 0.0, None, pool, specs)):
+                if seen.setdefault(sp[1], norm(sp)) != norm(sp):
+                    return False
             lim = lm if lm is not None else lim
             if not S.case_valid(("run", tock, 0.0, lim, pool, specs)):
                 return False
